@@ -596,6 +596,13 @@ def scene_desc(rng, kind=None):
             z += half
             h += 10
         x += 1.0
+    bottoms = [b["name"] for b in meta["bodies"] if b["level"] == 0]
+    if len(bottoms) >= 2 and rng.random() < 0.6:
+        # a connect equality between two stacks, inactive while they fall asleep (activated by the "equality" wake test)
+        L += ["equality %d" % h, "set %d type %d" % (h, E("mjEQ_CONNECT")), "set %d objtype %d" % (h, E("mjOBJ_BODY")),
+              "set %d name1 %s" % (h, bottoms[0]), "set %d name2 %s" % (h, bottoms[1]), "set %d data 0.5 0 0" % h, "set %d active 0" % h]
+        meta["equality"] = (bottoms[0], bottoms[1])
+        h += 10
     if rng.random() < 0.5:
         # damped pendulum on its own tree
         L += ["body %d 0" % h, "set %d pos %r 2 1" % (h, x), "joint %d %d" % (h + 1, h), "set %d type %d" % (h + 1, E("mjJNT_HINGE")),
@@ -681,17 +688,23 @@ def scene_scripts(ctx, impl, nscenes):
         model_line = "model " + " ; ".join(L)
         settle = rng.choice((150, 250, 400))
         # ---- run 1: settle with sleep enabled; run 2: same with sleep disabled (hash comparison while nobody is asleep)
-        lines = [model_line, "sstep %d" % settle, model_line, "sflag 0", "sreset", "sstep %d" % settle, model_line, "sreset", "sstep %d" % settle]
+        # each run in its own process (fresh heap: no stale arena / malloc content can leak between the runs)
+        lines = [model_line, "sstep %d" % settle]
+        lines_off = [model_line, "sflag 0", "sreset", "sstep %d" % settle]
         rc, outs, err = run_impl(ctx, impl, lines)
+        rc2, outs2, err2 = run_impl(ctx, impl, lines_off)
+        rc3, outs3, err3 = run_impl(ctx, impl, lines)
         replay = {"scene_lines": lines[:1], "settle": settle, "how": "feed scene_lines + the listed commands to the c18_sleep harness"}
-        if rc != 0 or len(outs) != len(lines) or not outs[0].startswith("model-ok") or any(o.startswith("error") for o in outs):
-            ctx.oracle_failure("c18:scene-error", "engine error / crash while stepping a sleep scene", dict(replay, rc=rc, outs=[o[:300] for o in outs[:8]], stderr=err[-300:]))
+        if (rc or rc2 or rc3) or len(outs) != 2 or len(outs2) != 4 or len(outs3) != 2 or not outs[0].startswith("model-ok") or \
+                any(o.startswith("error") for o in outs + outs2 + outs3):
+            ctx.oracle_failure("c18:scene-error", "engine error / crash while stepping a sleep scene",
+                               dict(replay, rc=[rc, rc2, rc3], outs=[o[:300] for o in (outs + outs2)[:8]], stderr=(err + err2)[-300:]))
             continue
         info = parse_model_out(outs[0])
         stats["scenes"] += 1
         recs_on = [parse_rec(x) for x in outs[1][3:].split(" ; ")]
-        recs_off = [parse_rec(x) for x in outs[5][3:].split(" ; ")]
-        recs_on2 = [parse_rec(x) for x in outs[8][3:].split(" ; ")]
+        recs_off = [parse_rec(x) for x in outs2[3][3:].split(" ; ")]
+        recs_on2 = [parse_rec(x) for x in outs3[1][3:].split(" ; ")]
         if not check_records(ctx, info, recs_on, set(), dict(replay, commands=lines[1:2]), stats):
             continue
         # determinism of the harness itself (guards the comparison below against false alarms)
@@ -704,7 +717,7 @@ def scene_scripts(ctx, impl, nscenes):
             stats["equal_hash_steps"] += 1
             if a["hash"] != b["hash"] or a["qpos"] != b["qpos"] or a["qvel"] != b["qvel"]:
                 ctx.oracle_failure("c18:enabled-differs-while-awake", "sleep enabled but no tree asleep: outputs differ from sleep disabled",
-                                   dict(replay, step=k, commands=lines[1:6]))
+                                   dict(replay, step=k, commands_enabled=lines[1:], commands_disabled=lines_off[1:]))
                 break
         final = recs_on[-1]["ta"]
         if any(v >= 0 for v in final):
@@ -717,9 +730,20 @@ def scene_scripts(ctx, impl, nscenes):
         qidx, vidx = tree_slices(info)
         tests = ["qpos", "qvel", "xfrc", "qfrc", "contact", "negzero", "none"]
         rng.shuffle(tests)
-        for kind in tests[:4 if ctx.tier == "quick" else 7]:
+        tests = tests[:4 if ctx.tier == "quick" else 7]
+        if "equality" in meta:
+            tests.append("equality")
+        for kind in tests:
             isl = sorted(rng.choice(cyc))
             t = rng.choice(isl)
+            if kind == "equality":
+                # trees of the two connected bodies (bodies are numbered in declaration order: stack bodies first)
+                names = [b["name"] for b in meta["bodies"]]
+                ta_, tb_ = (info["body_treeid"][1 + names.index(nm)] for nm in meta["equality"])
+                if final[ta_] < 0 or final[tb_] < 0 or ta_ in orbit(final, tb_):
+                    continue
+                isl = sorted(set(orbit(final, ta_)) | set(orbit(final, tb_)))
+                t = ta_
             body = info["tree_bodyadr"][t]
             cmds = []
             if kind == "qpos":
@@ -738,10 +762,13 @@ def scene_scripts(ctx, impl, nscenes):
                 cmds.append("sset xfrc_applied %d %r" % (6 * body + rng.randrange(6), rng.choice((1.0, -0.3, 1e-12))))
             elif kind == "qfrc":
                 cmds.append("sset qfrc_applied %d %r" % (rng.choice(vidx[t]), rng.choice((1.0, -0.3, 1e-12))))
+            elif kind == "equality":
+                cmds.append("sseti eq_active 0 1")
             elif kind == "contact":
                 # drop a moving awake body onto the top of the island's stack: pick an awake free body or wake one from another island
-                others = [u for u in range(info["ntree"]) if u not in isl and info["jnt_type"][info["body_jntadr"][info["tree_bodyadr"][u]]] == E("mjJNT_FREE")]
-                if not others:
+                isfree = lambda u: info["jnt_type"][info["body_jntadr"][info["tree_bodyadr"][u]]] == E("mjJNT_FREE")
+                others = [u for u in range(info["ntree"]) if u not in isl and isfree(u)]
+                if not others or not all(isfree(u) for u in isl):
                     continue
                 u = rng.choice(others)
                 bu = info["tree_bodyadr"][u]
@@ -777,9 +804,10 @@ def scene_scripts(ctx, impl, nscenes):
                 stats["wake_tests"]["contact(no touch yet)"] = stats["wake_tests"].get("contact(no touch yet)", 0) + 1
                 continue
             if len(awake_now) != len(isl):
-                ctx.oracle_failure("c18:missed-wake:" + ("contact" if kind == "contact" else "user-" + kind),
-                                   "sleeping island did not wake as a whole after the user changed %s" % kind
-                                   if kind != "contact" else "sleeping island did not wake as a whole when an awake body touched it",
+                ctx.oracle_failure("c18:missed-wake:" + (kind if kind in ("contact", "equality") else "user-" + kind),
+                                   "sleeping island did not wake as a whole when an awake body touched it" if kind == "contact" else
+                                   "two sleeping islands joined by a newly active equality did not both wake" if kind == "equality" else
+                                   "sleeping island did not wake as a whole after the user changed %s" % kind,
                                    dict(rp, before=before["ta"], after=after["ta"]))
     ctx.extra["scene_stats"] = stats
 
@@ -796,28 +824,35 @@ def random_model_scenes(ctx, impl, nmodels):
         model_line = "model " + " ; ".join(mdl.lines)
         nstep = rng.choice((60, 120, 200))
         pre = ["sopt sleep_tolerance %r" % tol] if tol is not None else []
-        lines = [model_line] + pre + ["sreset", "sstep %d" % nstep, model_line] + pre + ["sflag 0", "sreset", "sstep %d" % nstep]
+        lines = [model_line] + pre + ["sreset", "sstep %d" % nstep]
+        lines_off = [model_line] + pre + ["sflag 0", "sreset", "sstep %d" % nstep]
         rc, outs, err = run_impl(ctx, impl, lines)
-        rp = {"scene_lines": [model_line], "commands": lines[1:]}
-        if rc != 0 or len(outs) != len(lines):
-            ctx.oracle_failure("c18:scene-error", "crash while stepping a generated model with sleep enabled", dict(rp, rc=rc, stderr=err[-300:]))
+        rc2, outs_off, err2 = run_impl(ctx, impl, lines_off)
+        rp = {"scene_lines": [model_line], "commands_enabled": lines[1:], "commands_disabled": lines_off[1:]}
+        if rc != 0 or rc2 != 0 or len(outs) != len(lines) or len(outs_off) != len(lines_off):
+            ctx.oracle_failure("c18:scene-error", "crash while stepping a generated model with sleep enabled", dict(rp, rc=[rc, rc2], stderr=(err + err2)[-300:]))
             continue
         if not outs[0].startswith("model-ok"):
             st["compile_errors"] += 1
             continue
         info = parse_model_out(outs[0])
-        i_on, i_off = 2 + len(pre), 6 + 2 * len(pre)
-        if outs[i_on].startswith("error") or outs[i_off].startswith("error"):
+        o_on, o_off = outs[-1], outs_off[-1]
+        if o_on.startswith("error") or o_off.startswith("error"):
             # engine errors are legitimate for some generated models (e.g. tendon equality + sleep); they must agree in kind
             st["engine_errors"] += 1
-            if "sleep" in outs[i_on].lower() and "does not yet support" not in outs[i_on]:
+            if o_on.startswith("error") and "sleep" in o_on.lower() and "does not yet support" not in o_on:
                 ctx.oracle_failure("c18:sleep-error", "sleep bookkeeping raised a SHOULD-NOT-OCCUR error on a generated model",
-                                   dict(rp, error=outs[i_on][:300]))
+                                   dict(rp, error=o_on[:300]))
             continue
         st["models"] += 1
-        recs_on = [parse_rec(x) for x in outs[i_on][3:].split(" ; ")]
-        recs_off = [parse_rec(x) for x in outs[i_off][3:].split(" ; ")]
+        static_pair = any(info["body_treeid"][info["geom_bodyid"][g1]] < 0 and info["body_treeid"][info["geom_bodyid"][g2]] < 0
+                          for g1, g2 in zip(info.get("pair_geom1", []), info.get("pair_geom2", [])))
+        recs_on = [parse_rec(x) for x in o_on[3:].split(" ; ")]
+        recs_off = [parse_rec(x) for x in o_off[3:].split(" ; ")]
         if not check_records(ctx, info, recs_on, set(), rp, st):
+            continue
+        if static_pair:
+            st["static_pair_models_skipped"] = st.get("static_pair_models_skipped", 0) + 1
             continue
         for k, (a, b) in enumerate(zip(recs_on, recs_off)):
             if any(v >= 0 for v in a["ta"]):
@@ -828,6 +863,34 @@ def random_model_scenes(ctx, impl, nmodels):
                                    dict(rp, step=k))
                 break
     ctx.extra["generated_model_stats"] = st
+
+
+def static_pair_finding(ctx, impl):
+    """Directed test of a known deviation: an explicit contact pair between two dof-less bodies (not mocap) is dropped by
+    filterCollisionPair as soon as the sleep flag is set (body_awake is mjS_STATIC != mjS_AWAKE for both), although no tree
+    is asleep; with sleep disabled the contacts are generated."""
+    L = ["option enableflags %d" % E("mjENBL_SLEEP"), "option disableflags %d" % E("mjDSBL_ISLAND"),
+         "geom 1 0", "set 1 type %d" % E("mjGEOM_PLANE"), "set 1 size 5 5 0.1", "name 1 floor",
+         "body 10 0", "set 10 pos 0 0 0.05", "geom 12 10", "set 12 type %d" % E("mjGEOM_BOX"), "set 12 size 0.1 0.1 0.1", "name 12 sbox",
+         "body 20 0", "set 20 pos 2 0 1", "freejoint 21 20", "geom 22 20", "set 22 type %d" % E("mjGEOM_SPHERE"), "set 22 size 0.1",
+         "pair 30", "set 30 geomname1 floor", "set 30 geomname2 sbox"]
+    ml = "model " + " ; ".join(L)
+    lines, lines_off = [ml, "sstep 2"], [ml, "sflag 0", "sreset", "sstep 2"]
+    rc, outs, err = ctx.run_lines([impl], lines)
+    rc2, outs2, err2 = ctx.run_lines([impl], lines_off)
+    if rc != 0 or rc2 != 0 or len(outs) != 2 or len(outs2) != 4 or not outs[1].startswith("ok ") or not outs2[3].startswith("ok "):
+        ctx.extra["static_pair_directed"] = "not evaluated: %s" % [o[:120] for o in (outs[1:] + outs2[3:])]
+        return
+    on = [parse_rec(x) for x in outs[1][3:].split(" ; ")]
+    off = [parse_rec(x) for x in outs2[3][3:].split(" ; ")]
+    ctx.extra["static_pair_directed"] = {"ncon_sleep_enabled": [r["ncon"] for r in on], "ncon_sleep_disabled": [r["ncon"] for r in off],
+                                         "tree_asleep_enabled": [r["ta"] for r in on]}
+    if all(v < 0 for r in on for v in r["ta"]) and [r["hash"] for r in on] != [r["hash"] for r in off]:
+        ctx.oracle_failure("c18:static-static-pair-dropped-by-sleep-flag",
+                           "sleep enabled, no tree asleep: an explicit contact pair between two static (dof-less, non-mocap) bodies is "
+                           "filtered out (ncon %s) while with sleep disabled it produces contacts (ncon %s)"
+                           % ([r["ncon"] for r in on], [r["ncon"] for r in off]),
+                           {"scene_lines": [ml], "commands_enabled": lines[1:], "commands_disabled": lines_off[1:], "where": "engine_collision_driver.c: filterCollisionPair, ipair >= 0 branch"})
 
 
 # ------------------------------------------------------------------------------------------ run
@@ -892,6 +955,7 @@ def run(ctx):
     # ---- scenes
     scene_scripts(ctx, impl, 60 if thorough else 7)
     random_model_scenes(ctx, impl, 250 if thorough else 25)
+    static_pair_finding(ctx, impl)
 
     if thorough:
         ctx.leanchecker(["MjProof.Props.C18"])
